@@ -39,6 +39,11 @@ def load_findings(pid):
 
 
 def run_worker(hmod, tier, cond, workdir, active_known):
+    if cond.engine == "PROBE":
+        # concrete probe of the real library stack at a scale no symbolic bound reaches: no solver run, its replay function is executed once
+        return {"id": cond.id, "status": "PROBE", "paths": 0, "queries": 0, "solver_s": 0, "cpu_s": 0, "witnesses": [{}],
+                "counterexample": None, "functions_encoded": [], "reached": 0,
+                "messages": ["concrete probe on the real stack - not a solver verdict"], "wall_s": 0}
     out = os.path.join(workdir, hashlib.sha1(cond.id.encode()).hexdigest()[:16] + ".json")
     module = "vlib.smt_worker" if cond.engine == "SMT" else "vlib.xh_worker"
     cmd = [PY, "-m", module, hmod, tier, cond.id, out]
@@ -267,6 +272,8 @@ def _main(args, pid, tier, hmod, seed, t_start, workdir):
             validated += 1
             if rr["ok"]:
                 good_witnesses.setdefault(cid, []).append(job["inputs"])
+            if results[cid]["status"] == "PROBE" and not rr["ok"]:
+                results[cid]["status"] = "PROBE-FAILED"
             if not rr["ok"]:
                 violations.append({"cond": cid, "inputs": job["inputs"], "detail": rr["detail"],
                                    "found_by": "witness replay on the real stack (model more permissive than the library?)"})
